@@ -2118,24 +2118,35 @@ func lemmaForwardSession(raw *rawEnvelope) (e *Session, e3 *Session, accepted bo
 //@ ghost global authClock int
 //@ ghost global regClock int
 
-// intersect / contains are reflection code the verifier cannot enter: trusted
-// contracts (validated by the bounded differential test of the thorough tier).
-//@ spec fn rec boxedEnc(s []interface{}, k int) bool = k >= len(s) || (istype(s[k], SessionEncryption) && boxedEnc(s, k+1))
-//@ spec fn rec boxedComp(s []interface{}, k int) bool = k >= len(s) || (istype(s[k], SessionCompression) && boxedComp(s, k+1))
+// intersect / contains (reflection over the two kinds of option slices) are
+// verified against reflect contracts (extern.spec): the result holds exactly
+// options of the first argument that also occur in the second, boxed with their
+// own type, and is empty iff the two argument sets are disjoint.
+//@ spec fn reflBase(v reflect.Value) interface{} = uninterpreted
+//@ spec fn reflIdx(v reflect.Value) int = uninterpreted
+//@ spec fn encPair(a interface{}, b interface{}) bool = istype(a, []SessionEncryption) && istype(b, []SessionEncryption)
+//@ spec fn compPair(a interface{}, b interface{}) bool = istype(a, []SessionCompression) && istype(b, []SessionCompression)
 
-//@ func intersect[[]SessionEncryption]
-//@   trusted reflection-based set intersection (order of the first argument preserved)
+//@ func contains
+//@   props C09 C10
+//@   requires istype(a, []SessionEncryption) || istype(a, []SessionCompression)
 //@   modifies nothing
-//@   ensures fresh(result) && boxedEnc(result, 0)
-//@   ensures subset(elems(result), elems(a.([]SessionEncryption))) && subset(elems(result), elems(b.([]SessionEncryption)))
-//@   ensures (len(result) == 0) == emptyinter(elems(a.([]SessionEncryption)), elems(b.([]SessionEncryption)))
+//@   loop 0 invariant 0 <= i && reflBase(v) == a && reflIdx(v) < 0
+//@   loop 0 invariant istype(a, []SessionEncryption) ==> i <= len(a.([]SessionEncryption)) && (istype(e, SessionEncryption) ==> !inset(elems(prefix(a.([]SessionEncryption), i)), e.(SessionEncryption)))
+//@   loop 0 invariant istype(a, []SessionCompression) ==> i <= len(a.([]SessionCompression)) && (istype(e, SessionCompression) ==> !inset(elems(prefix(a.([]SessionCompression), i)), e.(SessionCompression)))
+//@   ensures [C09,C10] @membership istype(a, []SessionEncryption) && istype(e, SessionEncryption) ==> result == inset(elems(a.([]SessionEncryption)), e.(SessionEncryption))
+//@   ensures [C09,C10] @membershipcomp istype(a, []SessionCompression) && istype(e, SessionCompression) ==> result == inset(elems(a.([]SessionCompression)), e.(SessionCompression))
 
-//@ func intersect[[]SessionCompression]
-//@   trusted reflection-based set intersection (order of the first argument preserved)
+//@ func intersect
+//@   props C09 C10
+//@   requires encPair(a, b) || compPair(a, b)
 //@   modifies nothing
-//@   ensures fresh(result) && boxedComp(result, 0)
-//@   ensures subset(elems(result), elems(a.([]SessionCompression))) && subset(elems(result), elems(b.([]SessionCompression)))
-//@   ensures (len(result) == 0) == emptyinter(elems(a.([]SessionCompression)), elems(b.([]SessionCompression)))
+//@   loop 0 invariant 0 <= i && reflBase(av) == a && reflIdx(av) < 0 && fresh(set)
+//@   loop 0 invariant encPair(a, b) ==> i <= len(a.([]SessionEncryption)) && alltags(set, SessionEncryption) && subset(elems(set), elems(a.([]SessionEncryption))) && subset(elems(set), elems(b.([]SessionEncryption))) && ((len(set) == 0) == emptyinter(elems(prefix(a.([]SessionEncryption), i)), elems(b.([]SessionEncryption))))
+//@   loop 0 invariant compPair(a, b) ==> i <= len(a.([]SessionCompression)) && alltags(set, SessionCompression) && subset(elems(set), elems(a.([]SessionCompression))) && subset(elems(set), elems(b.([]SessionCompression))) && ((len(set) == 0) == emptyinter(elems(prefix(a.([]SessionCompression), i)), elems(b.([]SessionCompression))))
+//@   ensures fresh(result)
+//@   ensures [C09,C10] @enc encPair(a, b) ==> alltags(result, SessionEncryption) && subset(elems(result), elems(a.([]SessionEncryption))) && subset(elems(result), elems(b.([]SessionEncryption))) && ((len(result) == 0) == emptyinter(elems(a.([]SessionEncryption)), elems(b.([]SessionEncryption))))
+//@   ensures [C09,C10] @comp compPair(a, b) ==> alltags(result, SessionCompression) && subset(elems(result), elems(a.([]SessionCompression))) && subset(elems(result), elems(b.([]SessionCompression))) && ((len(result) == 0) == emptyinter(elems(a.([]SessionCompression)), elems(b.([]SessionCompression))))
 
 // C10: the encryption in force is a configured one whenever some configured option is available.
 //@ spec fn policy(c *ServerChannel) bool = !emptyinter(c.cfgEnc, c.transport.supEnc) ==> inset(c.cfgEnc, c.transport.enc)
@@ -2270,8 +2281,8 @@ func lemmaForwardSession(raw *rawEnvelope) (e *Session, e3 *Session, accepted bo
 //@   entry-ghost c.cfgComp = elems(compOpts)
 //@   panics only-if ctx == nil || compOpts == nil || encryptOpts == nil || authenticate == nil || register == nil
 //@   modifies c.cfgEnc, c.cfgComp, c.state, c.remoteNode, c.startRcv.fired, c.stopRcv.fired, c.transport.nRecv, c.transport.lastRecv, recvClock, c.transport.connected, c.transport.nSent, c.transport.lastSent, c.transport.nSentSes, c.transport.lastSes, c.transport.stage, c.transport.offerEnc, c.transport.offerComp, c.transport.offerSchemes, c.transport.confEnc, c.transport.confComp, c.transport.enc, c.transport.comp, authN, authClock, authIdentity, authArg, authRes, authErr, regN, regClock, regSeqAuth, regCand, regChan, regRes, regErr, c.cancel
-//@   loop 0 invariant 0 <= it_ && it_ <= len(rng_) && atloop(boxedComp(rng_, it_)) && len(negCompOpts) == it_ && subset(elems(negCompOpts), elems(rng_))
-//@   loop 1 invariant 0 <= it_ && it_ <= len(rng_) && atloop(boxedEnc(rng_, it_)) && len(negEncryptOpts) == it_ && subset(elems(negEncryptOpts), elems(rng_))
+//@   loop 0 invariant 0 <= it_ && it_ <= len(rng_) && alltags(rng_, SessionCompression) && len(negCompOpts) == it_ && subset(elems(negCompOpts), elems(rng_))
+//@   loop 1 invariant 0 <= it_ && it_ <= len(rng_) && alltags(rng_, SessionEncryption) && len(negEncryptOpts) == it_ && subset(elems(negEncryptOpts), elems(rng_))
 //@   ensures [C14] @closedorestablished result == nil && c.state != SessionStateEstablished ==> !c.transport.connected
 //@   ensures [C14] @announcedwhenestablished result == nil && c.state == SessionStateEstablished ==> effStage(c.transport) == 4
 //@   ensures [C07] @failclosed result == nil && c.state != SessionStateEstablished && old(transportOK(c.channel)) ==> c.state == SessionStateFailed || !c.transport.connected
